@@ -29,7 +29,7 @@ like a changed one). Each becomes a `do` block in `Except Panic`, statement by s
   expressions  identifiers, string / integer literals, true, false, s + t on strings, len(xs),
                xs[i] (bounds-checked: `Go.index`, a panic when out of range — the length test of the
                source is NOT carried as a hypothesis, the proofs have to discharge it), x.Field,
-               == and != on two strings or two ints, !, &&, ||, &S{Field: e, …} (a field left out is
+               == and != on two strings or two ints, < > <= >= on ints, !, &&, ||, &S{Field: e, …} (a field left out is
                Go's zero value ""), errors.New(e)
 
 Receivers and *S arguments are taken to be non-nil (as in the first front end).
@@ -178,7 +178,7 @@ func (g *m2l) kind(e ast.Expr) string {
 			if g.kind(x.X) == "str" && g.kind(x.Y) == "str" {
 				return "str"
 			}
-		case token.EQL, token.NEQ, token.LAND, token.LOR:
+		case token.EQL, token.NEQ, token.LAND, token.LOR, token.LSS, token.GTR, token.LEQ, token.GEQ:
 			return "bool"
 		}
 	case *ast.UnaryExpr:
@@ -267,6 +267,11 @@ func (g *m2l) expr(e ast.Expr) string {
 					return "decide (" + l + " = " + r + ")"
 				}
 				return "decide (" + l + " ≠ " + r + ")"
+			}
+		case token.LSS, token.GTR, token.LEQ, token.GEQ:
+			if kl == "int" && kr == "int" {
+				op := map[token.Token]string{token.LSS: "<", token.GTR: ">", token.LEQ: "≤", token.GEQ: "≥"}[x.Op]
+				return "decide (" + l + " " + op + " " + r + ")"
 			}
 		case token.LAND:
 			if kl == "bool" && kr == "bool" {
